@@ -255,27 +255,66 @@ def d5_d6(ctx, rep):
     prog = ctx.prog
     tree = prog.cls(TREE + 'Tree')
     cc = tree.methods['_check_constraint']
+    from ..idioms import resolve
     rets = [n for n in walk_no_nested(cc.node) if isinstance(n, ast.Return)]
     nf = NF(prog, cc)
-    good = False
-    if rets and isinstance(rets[0].value, ast.Compare) and isinstance(rets[0].value.ops[0], ast.Eq):
-        l, r = rets[0].value.left, rets[0].value.comparators[0]
-        want = nf.nf(ast.parse(f'{cc.self_name}.level + 1', mode='eval').body)
-        good = (isinstance(l, ast.Call) and call_name(l) == 'len' and nf.nf(r) == want) or (isinstance(r, ast.Call) and call_name(r) == 'len' and nf.nf(l) == want)
-    # the set whose size is tested is the union of both edges' variables
-    setdef = [s for s in walk_no_nested(cc.node) if isinstance(s, ast.Assign) and isinstance(s.value, ast.Set)]
-    attrs = {(x.value.id, x.attr) for s in setdef for x in ast.walk(s.value) if isinstance(x, ast.Attribute) and isinstance(x.value, ast.Name)}
-    ups = {(c.args[0].value.id, c.args[0].attr) for c in walk_no_nested(cc.node) if isinstance(c, ast.Call) and call_name(c) == 'update'
-           and c.args and isinstance(c.args[0], ast.Attribute) and isinstance(c.args[0].value, ast.Name)}
     e1, e2 = cc.params[1], cc.params[2]
-    union_ok = attrs == {(e1, 'L'), (e1, 'R'), (e2, 'L'), (e2, 'R')} and ups == {(e1, 'D'), (e2, 'D')}
-    rep.check('D5.proximity', cc, rets[0] if rets else cc.node.name, good and union_ok, '|{L,R} | D of both edges| == level + 1',
-              'the proximity test is not "the two parent edges span exactly level + 1 variables"', construct='regular proximity')
+    verdict = None
+    rv = resolve(cc.node, rets[0].value) if rets else None
+    if isinstance(rv, ast.Compare) and len(rv.ops) == 1 and isinstance(rv.ops[0], ast.Eq):
+        l, r = rv.left, rv.comparators[0]
+        want = nf.nf(ast.parse(f'{cc.self_name}.level + 1', mode='eval').body)
+        size, other = (l, r) if (isinstance(l, ast.Call) and call_name(l) == 'len') else ((r, l) if (isinstance(r, ast.Call) and call_name(r) == 'len') else (None, None))
+        if size is not None:
+            if nf.nf(other) != want:
+                if any(is_self_attr(x, cc.self_name, 'level') for x in ast.walk(other)):
+                    verdict = (False, f'the span of the two parent edges is compared with `{short(other)}` instead of level + 1')
+            else:
+                # the set that is measured must contain L, R and D of both edges
+                mentioned = set()
+                todo = [size.args[0]]
+                seen_names = set()
+                while todo:
+                    x = todo.pop()
+                    for y in ast.walk(x):
+                        if isinstance(y, ast.Attribute) and isinstance(y.value, ast.Name) and y.value.id in (e1, e2) and y.attr in ('L', 'R', 'D'):
+                            mentioned.add((y.value.id, y.attr))
+                        if isinstance(y, ast.Name) and y.id not in seen_names and y.id not in (e1, e2):
+                            seen_names.add(y.id)
+                            for a in walk_no_nested(cc.node):
+                                if isinstance(a, ast.Assign) and any(isinstance(t, ast.Name) and t.id == y.id for t in a.targets):
+                                    todo.append(a.value)
+                                if isinstance(a, ast.Call) and isinstance(a.func, ast.Attribute) and isinstance(a.func.value, ast.Name) \
+                                        and a.func.value.id == y.id and a.func.attr in ('update', 'add', 'union'):
+                                    todo.extend(a.args)
+                full = {(e, a) for e in (e1, e2) for a in ('L', 'R', 'D')}
+                intersect = any(isinstance(y, ast.BinOp) and isinstance(y.op, (ast.BitAnd, ast.BitXor, ast.Sub)) for y in ast.walk(cc.node)) \
+                    or any(isinstance(y, ast.Call) and call_name(y) in ('intersection', 'difference', 'symmetric_difference') for y in ast.walk(cc.node))
+                if mentioned == full and not intersect:
+                    verdict = (True, '|{L,R} | D of both edges| == level + 1')
+                elif mentioned < full and not intersect:
+                    verdict = (False, f'the measured set leaves out {sorted(full - mentioned)}')
+    if verdict is None:
+        rep.undecided('D5.proximity', cc, rets[0] if rets else cc.node.name, 'form of the proximity test not recognised', construct='regular proximity')
+    else:
+        rep.check('D5.proximity', cc, rets[0], verdict[0], verdict[1], 'the proximity test is not "the two parent edges span exactly level + 1 variables": ' + verdict[1],
+                  construct='regular proximity')
     rk = prog.cls(TREE + 'RegularTree').methods['_build_kth_tree']
     uses = [c for c in walk_no_nested(rk.node) if isinstance(c, ast.Call) and call_name(c) == '_check_constraint']
-    in_filter = bool(uses) and any(isinstance(p, ast.If) for p in _ancestors(uses[0], rk.node))
-    rep.check('D5.proximity', rk, uses[0] if uses else rk.node.name, in_filter, 'candidate pairs are filtered by the proximity test',
-              'candidate pairs of the regular vine are not filtered by the proximity test', construct='regular proximity use')
+
+    def filters(c):
+        for p_ in _ancestors(c, rk.node):
+            if isinstance(p_, ast.If) or (isinstance(p_, ast.comprehension)):
+                return True
+            if isinstance(p_, (ast.SetComp, ast.ListComp, ast.GeneratorExp)) and any(any(y is c for y in ast.walk(i)) for g in p_.generators for i in g.ifs):
+                return True
+        return False
+    if not uses:
+        rep.bad('D5.proximity', rk, rk.node.name, 'candidate pairs of the regular vine are not filtered by the proximity test', construct='regular proximity use')
+    elif any(filters(c) for c in uses):
+        rep.ok('D5.proximity', rk, uses[0], 'candidate pairs are filtered by the proximity test', construct='regular proximity use')
+    else:
+        rep.undecided('D5.proximity', rk, uses[0], 'how the proximity test filters the candidates was not recognised', construct='regular proximity use')
     # direct kth: edges[k], edges[k + 1]; center kth: edges[anchor], edges[right]
     dk = prog.cls(TREE + 'DirectTree').methods['_build_kth_tree']
     se = [c for c in walk_no_nested(dk.node) if isinstance(c, ast.Call) and call_name(c) == 'sort_edge']
@@ -314,11 +353,28 @@ def d5_d6(ctx, rep):
         srt = [s for s in lp.body if isinstance(s, ast.Assign) and isinstance(s.value, ast.Call) and call_name(s.value) == 'sorted'] if lp else []
         if srt and isinstance(srt[0].value.args[0], (ast.List, ast.Tuple)) and len(srt[0].value.args[0].elts) == 2:
             a, b = srt[0].value.args[0].elts
+            # first, second = T1[k], T1[k + 1]
+            def loc(e):
+                if isinstance(e, ast.Name):
+                    for s_ in lp.body:
+                        if isinstance(s_, ast.Assign) and isinstance(s_.targets[0], ast.Tuple) and isinstance(s_.value, ast.Tuple):
+                            for te, ve in zip(s_.targets[0].elts, s_.value.elts):
+                                if isinstance(te, ast.Name) and te.id == e.id:
+                                    return ve
+                        if isinstance(s_, ast.Assign) and isinstance(s_.targets[0], ast.Name) and s_.targets[0].id == e.id:
+                            return s_.value
+                return e
+            a, b = loc(a), loc(b)
             nf3 = NF(prog, df)
             ok = isinstance(a, ast.Subscript) and isinstance(b, ast.Subscript) and ast.dump(a.value) == ast.dump(b.value) \
                 and isinstance(a.slice, ast.Name) and a.slice.id == kv and nf3.nf(b.slice) == nf3.nf(ast.parse(f'{kv} + 1', mode='eval').body)
-    rep.check('D6.shape', df, mk[0] if mk else df.node.name, ok, 'direct first tree: edge k joins elements k and k + 1 of one sequence (path)',
-              'the first direct tree does not join consecutive elements of the path sequence', construct='direct first path')
+    if ok:
+        rep.ok('D6.shape', df, mk[0], 'direct first tree: edge k joins elements k and k + 1 of one sequence (path)', construct='direct first path')
+    elif mk and srt and isinstance(a, ast.Subscript) and isinstance(b, ast.Subscript):
+        rep.bad('D6.shape', df, mk[0], f'the first direct tree joins {short(a)} and {short(b)}, not consecutive elements of the path sequence',
+                construct='direct first path')
+    else:
+        rep.undecided('D6.shape', df, mk[0] if mk else df.node.name, 'construction of the first direct tree not recognised', construct='direct first path')
     # the greedy path construction keeps no candidate between iterations
     greedy = [n for n in df.body() if isinstance(n, ast.For) and not any(isinstance(x, ast.Call) and call_name(x) == 'append' and is_self_attr(x.func.value, df.self_name, 'edges') for x in ast.walk(n))]
     for lp in greedy:
